@@ -164,7 +164,7 @@ def src_configsearch(tier, seed):
 
 
 def pat_text(p):
-    t = {"name": p["v"], "dir": p["v"] + "/", "ext": "*." + p["v"], "anch": "/" + p["v"]}[p["k"]]
+    t = {"name": p["v"], "dir": p["v"] + "/", "ext": "*." + p["v"], "anch": "/" + p["v"], "under": p["v"] + "/**"}[p["k"]]
     return ("!" if p["neg"] else "") + t
 
 
@@ -186,11 +186,16 @@ def src_selection(tier, seed):
             argv.append("--respect-ignores")
         if sc["allow_hidden"]:
             argv.append("--allow-hidden")
+        for g in sc.get("globs", []):
+            argv += ["-g", pat_text(g)]
+        if sc.get("globs"):
+            argv.append("--")
         argv += [a["path"] for a in sc["args"]]
         pk = "+".join(sorted(set(("!" if p["neg"] else "") + p["k"] for p in sc["ig_root"])) ) + "/" + "+".join(sorted(set(("!" if p["neg"] else "") + p["k"] for p in sc["ig_src"])))
         scenarios.append({"id": "sl%d" % n, "tree": tree, "argv": argv,
-                          "meta": {"kind": "select", "sc": sc, "selected": sorted(c["selected"]), "maybe": sorted(c["maybe"]),
-                                   "sig": "args=%s;flags=%s" % (sc["argset"], "+".join(k for k in ("respect", "allow_hidden") if sc[k]) or "none"),
+                          "meta": {"kind": "select", "sc": sc, "selected": sorted(c["selected"]), "maybe": sorted(c["maybe"]), "ignored": sorted(c.get("ignored", [])),
+                                   "sig": "args=%s;flags=%s" % (sc["argset"], "+".join(k for k in ("respect", "allow_hidden") if sc[k]) or "none")
+                                          + (";globs=%s" % sc["globset"] if sc.get("globset", "none") != "none" else ""),
                                    "sig_ignore": pk}})
     return scenarios, st
 
@@ -377,7 +382,7 @@ def src_carriers(tier, seed):
 
 def stdin_input(cls):
     if cls == "unformatted":
-        return "local   x   =   1\nlocal t = {  1,2 }\n"
+        return "local   x   =   1\nlocal t = {  1,2 }\ndo\nf()\nend\n"      # the block makes the indent settings visible
     if cls == "formatted":
         return "local x = 1\n"
     if cls == "invalid":
@@ -401,6 +406,7 @@ def src_stdin(tier, seed):
     for cls in ("unformatted", "formatted", "empty", "crlf", "nonl", "large"):
         reqs.append(("fmt:" + cls, stdin_input(cls).encode(), {}))
         reqs.append(("fmt_cfgdir:" + cls, stdin_input(cls).encode(), {"indent_type": "Spaces", "indent_width": 3}))
+        reqs.append(("fmt_ecdir:" + cls, stdin_input(cls).encode(), {"indent_type": "Spaces", "indent_width": 5}))
     lib = _expected_formats(reqs)
     for n, r in enumerate(raw):
         c = r["c"]
@@ -408,11 +414,12 @@ def src_stdin(tier, seed):
         tree = [{"path": "keep/other.lua", "text": "local   untouched = 1\n", "class": "raw"},
                 {"path": ".styluaignore", "text": "build/\nignored.lua\n", "class": "raw"},
                 {"path": "conf/stylua.toml", "text": 'indent_type = "Spaces"\nindent_width = 3\n', "class": "raw"},
+                {"path": "ec/.editorconfig", "text": "[*.lua]\nindent_style = space\nindent_size = 5\n", "class": "raw"},
                 {"path": "build/sub/deep", "kind": "dir"}, {"path": "src", "kind": "dir"}]
         argv = []
         pc = c["pathcase"]
         path = {"plain": "src/foo.lua", "ign1": "build/foo.lua", "ign2": "build/sub/foo.lua", "ign3": "build/sub/deep/foo.lua",
-                "ignfile": "src/ignored.lua", "ign_norespect": "build/foo.lua", "cfgdir": "conf/foo.lua"}.get(pc)
+                "ignfile": "src/ignored.lua", "ign_norespect": "build/foo.lua", "cfgdir": "conf/foo.lua", "ecdir": "ec/foo.lua"}.get(pc)
         if pc in ("ign1", "ign2", "ign3", "ignfile", "plain"):
             argv.append("--respect-ignores")
         if path:
@@ -426,7 +433,8 @@ def src_stdin(tier, seed):
         elif c["extra"] == "threads1":
             argv += ["--num-threads", "1"]
         argv.append("-")
-        exp = {"input": text, "fmt": lib.get("fmt:" + c["input"]), "fmt_cfgdir": lib.get("fmt_cfgdir:" + c["input"])}
+        exp = {"input": text, "fmt": lib.get("fmt:" + c["input"]), "fmt_cfgdir": lib.get("fmt_cfgdir:" + c["input"]),
+               "fmt_ecdir": lib.get("fmt_ecdir:" + c["input"])}
         scenarios.append({"id": "si%d" % n, "tree": tree, "argv": argv, "stdin": {"text": text}, "stdout_expect": exp, "timeout": 60,
                           "meta": {"kind": "stdin", "c": c, "expect": r["expect"],
                                    "sig": "input=%s;mode=%s;path=%s;extra=%s" % (c["input"], c["mode"], pc, c["extra"])}})
@@ -501,7 +509,7 @@ def src_exitcode(tier, seed):
             pool.remove(r)
             res_json.append({"file": f, "ops": r["ops"]})
         expected = 2 if any(c in ("missing", "unparseable") for _, c in files) else 1
-        ops_p = os.path.join(vlib.BUILD, "tlc", "exitcode_ops.json")
+        ops_p = os.path.join(vlib.BUILD, "tlc", "exitcode_ops.p%d.json" % os.getpid())
         os.makedirs(os.path.dirname(ops_p), exist_ok=True)
         json.dump({"main": main_ops, "results": res_json, "expected": expected}, open(ops_p, "w"))
         r = vlib.tlc("MC_ExitCode", "MC_ExitCode.cfg", "g_exitcode", workers=1, env={"OPS": ops_p}, timeout=600)
@@ -551,6 +559,30 @@ def src_threads(tier, seed):
         for ent in sc["tree"]:
             if ent["class"] != "missing":
                 ent["expect"] = {"fmt": exp.get("%d|%s" % (n, ent["path"]))}
+    # second family: directories with their own configuration (indent settings differ), nested blocks so that the
+    # indentation is visible; per directory one file to rewrite and one already formatted under that directory's settings.
+    # Whatever a worker thread formatted before must not leak into the next file it picks up.
+    dirs = [("p2", "Spaces", 2), ("p4", "Spaces", 4), ("p8", "Spaces", 8), ("pt", "Tabs", 4)]
+    body = "if x then\nlocal   v%d = %d\nif y then\nf(  %d )\nend\nend\n"
+    lib = _expected_formats([("%s|%s" % (d, kind), (body % (k, k, k + (7 if kind == "k" else 0))).encode(), {"indent_type": it, "indent_width": iw})
+                             for k, (d, it, iw) in enumerate(dirs) for kind in ("u", "k")])
+    fam = []
+    for k, (d, it, iw) in enumerate(dirs):
+        fam.append((d + "/stylua.toml", "raw", 'indent_type = "%s"\nindent_width = %d\n' % (it, iw), None))
+        fam.append((d + "/u.lua", "unformatted", body % (k, k, k), lib.get(d + "|u")))
+        fam.append((d + "/k.lua", "formatted", lib.get(d + "|k"), lib.get(d + "|k")))
+    lua = [(p_, c) for p_, c, _, _ in fam if c != "raw"]
+    if all(t is not None for _, _, t, _ in fam):
+        for mode in ("check", "write"):
+            for t in range(1, 17):
+                for rep in range(reps):
+                    for oi, order in enumerate((lua, lua[::-1], sorted(lua, key=lambda x: x[0][::-1]))):
+                        tree = [dict({"path": p_, "class": c, "text": txt}, **({"expect": {"fmt": e}} if e is not None else {})) for p_, c, txt, e in fam]
+                        scenarios.append({"id": "thc:%s:%d:%d:%d" % (mode, t, rep, oi), "tree": tree,
+                                          "argv": (["--check"] if mode == "check" else []) + ["--num-threads", str(t)] + [f for f, _ in order],
+                                          "meta": {"files": [{"path": f, "cls": c, "loc": "arg", "i": k + 1} for k, (f, c) in enumerate(order)],
+                                                   "mode": mode, "fmt": "standard", "verify": False, "threads": t, "sortreq": False, "priv": priv,
+                                                   "sig": "threads-configs"}})
     return scenarios, {"module": "(thread-count sweep)", "states": 0, "distinct": 0, "cases": len(scenarios)}
 
 
